@@ -240,8 +240,27 @@ fn main() {
     let agg = aggregate(&f, &f.clerk, &sigs, &msg).unwrap();
     let aggv = serde_json::to_value(&agg).unwrap();
     let pairs = aggv["signatures"].as_array().unwrap();
-    let valid_sig: Vec<Vec<u8>> = pairs.iter().map(|p| bytes_of(&p[0]["sigma"])).collect();
-    let valid_vk: Vec<Vec<u8>> = pairs.iter().map(|p| bytes_of(&p[1][0])).collect();
+    let mut valid_sig: Vec<Vec<u8>> = pairs.iter().map(|p| bytes_of(&p[0]["sigma"])).collect();
+    let mut valid_vk: Vec<Vec<u8>> = pairs.iter().map(|p| bytes_of(&p[1][0])).collect();
+    // the aggregate usually keeps ONE (signature, party) pair: the components of EVERY signer are needed to assemble
+    // multi-element layouts, and the point oracle has to know them
+    struct Comp { idx: Vec<u64>, sigma: Vec<u8>, signer: u64, vk: Vec<u8>, stake: u64, cbor_single: Vec<u8>, cbor_reg: Vec<u8>, cbor_sigreg: Vec<u8> }
+    fn c_field(v: &C, k: &str) -> Vec<u8> {
+        let f = v.as_map().unwrap().iter().find(|e| e.0.as_text() == Some(k)).unwrap().1.clone();
+        match f { C::Bytes(b) => b, C::Array(a) => a.iter().map(|x| u8::try_from(x.as_integer().unwrap()).unwrap()).collect(), _ => unreachable!() }
+    }
+    let comps: Vec<Comp> = sigs.iter().map(|s| {
+        let v = serde_json::to_value(s).unwrap();
+        let signer = v["signer_index"].as_u64().unwrap();
+        let (vk, stake) = f.by_slot[signer as usize];
+        let vk = vk.to_bytes().to_vec();
+        let sr: SingleSignatureWithRegisteredParty = serde_json::from_value(serde_json::json!([v, [vk, stake]])).unwrap();
+        let cbor_sigreg = sr.to_bytes().unwrap();
+        let env: C = ciborium::de::from_reader(&cbor_sigreg[1..]).unwrap();
+        Comp { idx: v["indexes"].as_array().unwrap().iter().map(|x| x.as_u64().unwrap()).collect(), sigma: bytes_of(&v["sigma"]), signer, vk, stake,
+               cbor_single: c_field(&env, "signature_bytes"), cbor_reg: c_field(&env, "registration_entry_bytes"), cbor_sigreg }
+    }).collect();
+    for c in &comps { if !valid_sig.contains(&c.sigma) { valid_sig.push(c.sigma.clone()); } if !valid_vk.contains(&c.vk) { valid_vk.push(c.vk.clone()); } }
     let oracle = format!("validsig=[{}] validvk=[{}]", valid_sig.iter().map(|b| hex(b)).collect::<Vec<_>>().join(","), valid_vk.iter().map(|b| hex(b)).collect::<Vec<_>>().join(","));
 
     let singles: Vec<Vec<u8>> = pairs.iter().map(|p| legacy_single(&p[0]["indexes"].as_array().unwrap().iter().map(|x| x.as_u64().unwrap()).collect::<Vec<_>>(), &bytes_of(&p[0]["sigma"]), p[0]["signer_index"].as_u64().unwrap())).collect();
@@ -314,6 +333,95 @@ fn main() {
         k_case(&mut sink, &mut w, "aggregate", "corpus", &evil3);
         let mut evil4 = vec![0u8]; evil4.extend(be(1)); evil4.extend(be(u64::MAX - 3)); evil4.extend(vec![0u8; 15]);
         k_case(&mut sink, &mut w, "aggregate", "corpus", &evil4);
+    }
+
+    // ---- (1b) K on assembled layouts the mutations above never reach with success ------------------
+    // several elements per aggregate, zero counts, trailing bytes INSIDE nested slices, every tracked length /
+    // count field set to near values, every type byte, and CBOR payloads nested in legacy envelopes (those the
+    // model declares `unmodelled:cbor`; they still run under the panic hook and the allocation counter)
+    {
+        let single_of = |c: &Comp| legacy_single(&c.idx, &c.sigma, c.signer);
+        let reg_of = |c: &Comp| legacy_reg(&c.vk, c.stake);
+        let elem = |i: usize| { let c = &comps[i % comps.len()]; legacy_sigreg(&reg_of(c), &single_of(c)) };
+        let with = |b: &[u8], extra: &[u8]| { let mut x = b.to_vec(); x.extend_from_slice(extra); x };
+        let first1 = |b: &[u8]| { let mut x = b.to_vec(); if !x.is_empty() { x[0] = 1; } x };
+        let set8 = |b: &[u8], at: usize, v: u64| { let mut x = b.to_vec(); x[at..at + 8].copy_from_slice(&be(v)); x };
+        // single signatures
+        for c in &comps {
+            let h = single_of(c);
+            k_case(&mut sink, &mut w, "single", "asm-honest", &h);
+            k_case(&mut sink, &mut w, "single", "asm-zero-index", &legacy_single(&[], &c.sigma, c.signer));
+            k_case(&mut sink, &mut w, "single", "asm-big-values", &legacy_single(&[u64::MAX, 0, 1 << 63, 1 << 56], &c.sigma, u64::MAX));
+            for t in [1usize, 8, 48, 56, 104] { k_case(&mut sink, &mut w, "single", "asm-trailing", &with(&h, &rng.bytes(t))); k_case(&mut sink, &mut w, "single", "asm-trailing", &with(&h, &vec![1u8; t])); }
+            for d in [-1i64, 1] { k_case(&mut sink, &mut w, "single", "asm-count-off", &set8(&h, 0, (c.idx.len() as i64 + d) as u64)); }
+            let mut inf = vec![0u8; 48]; inf[0] = 0xc0;
+            let mut unc = c.sigma.clone(); unc[0] &= 0x7f;
+            for s in [vec![0u8; 48], inf, unc, c.vk[..48].to_vec()] { k_case(&mut sink, &mut w, "single", "asm-bad-point", &legacy_single(&c.idx, &s, c.signer)); }
+        }
+        // signature + party: nested parts with trailing bytes, short, empty, CBOR
+        let c0 = &comps[0];
+        let regs: Vec<(&str, Vec<u8>)> = vec![("reg", reg_of(c0)), ("reg+1", with(&reg_of(c0), &[7])), ("reg+96", with(&reg_of(c0), &rng.bytes(96))), ("reg-stake-max", legacy_reg(&c0.vk, u64::MAX)),
+            ("reg-103", reg_of(c0)[..103].to_vec()), ("reg-empty", vec![]), ("reg-01", vec![1]), ("reg-first-byte-1", first1(&reg_of(c0))), ("reg-cbor", c0.cbor_reg.clone()), ("reg-cbor+5", with(&c0.cbor_reg, &rng.bytes(5)))];
+        let sgs: Vec<(&str, Vec<u8>)> = vec![("sig", single_of(c0)), ("sig-zero-index", legacy_single(&[], &c0.sigma, c0.signer)), ("sig+1", with(&single_of(c0), &[7])), ("sig+56", with(&single_of(c0), &rng.bytes(56))),
+            ("sig-short", { let s = single_of(c0); s[..s.len() - 1].to_vec() }), ("sig-empty", vec![]), ("sig-01", vec![1]), ("sig-first-byte-1", first1(&single_of(c0))), ("sig-cbor", c0.cbor_single.clone())];
+        for (rt, r) in &regs { for (st, s) in &sgs { k_case(&mut sink, &mut w, "sigreg", &format!("asm-{}|{}", rt, st), &legacy_sigreg(r, s)); } }
+        {
+            let e = elem(0);
+            for v in [u64::MAX, u64::MAX - 7, u64::MAX - 8, u64::MAX - 15, u64::MAX - 16, 1 << 63] { k_case(&mut sink, &mut w, "sigreg", "asm-size-huge", &set8(&e, 0, v)); k_case(&mut sink, &mut w, "sigreg", "asm-size-huge", &set8(&e, 112, v)); }
+            for d in [-1i64, 1] { k_case(&mut sink, &mut w, "sigreg", "asm-sigsize-off", &set8(&e, 112, ((e.len() - 120) as i64 + d) as u64)); }
+        }
+        // aggregates: lists of elements x paths
+        let hp = path.clone();
+        let cbor_path = { let env: C = ciborium::de::from_reader(&agg.to_bytes().unwrap()[1..]).unwrap(); let pb = c_field(&env, "proof_bytes"); let penv: C = ciborium::de::from_reader(&pb[1..]).unwrap(); c_field(&penv, "batch_proof_bytes") };
+        let paths: Vec<(&str, Vec<u8>)> = vec![("path", hp.clone()), ("path-empty", legacy_path(&[], &[])), ("path-cbor", cbor_path), ("path+8", with(&hp, &rng.bytes(8))), ("path-short", hp[..hp.len() - 1].to_vec()), ("path-first-byte-1", first1(&hp)),
+            ("path-0v", legacy_path(&[], &[1, 2, u64::MAX])), ("path-0i", legacy_path(&values, &[])), ("path-many", legacy_path(&(0..5).map(|i| vec![i as u8; 32]).collect::<Vec<_>>(), &[0, 1 << 40, u64::MAX, 3])),
+            ("path-15", hp[..15].to_vec()), ("path-none", vec![]), ("path-01", vec![1]),
+            ("path-lenv-huge", set8(&hp, 0, (u64::MAX >> 5) + 1)), ("path-leni-huge", set8(&hp, 8, 1 << 61)), ("path-leni-max", set8(&hp, 8, u64::MAX))];
+        let c1 = &comps[1 % comps.len()];
+        let mut elems: Vec<(String, Vec<u8>)> = (0..comps.len()).map(|i| (format!("el{}", i), elem(i))).collect();
+        elems.push(("el+9".into(), with(&elem(0), &rng.bytes(9))));
+        elems.push(("el-zero-index".into(), legacy_sigreg(&reg_of(c1), &legacy_single(&[], &c1.sigma, c1.signer))));
+        elems.push(("el-cbor".into(), c0.cbor_sigreg.clone()));
+        elems.push(("el-mixed".into(), legacy_sigreg(&c1.cbor_reg, &c1.cbor_single)));
+        elems.push(("el-mixed-reg".into(), legacy_sigreg(&c1.cbor_reg, &single_of(c1))));
+        elems.push(("el-empty".into(), vec![]));
+        elems.push(("el-01".into(), vec![1]));
+        elems.push(("el-short".into(), { let e = elem(2); e[..e.len() - 1].to_vec() }));
+        let mut lists: Vec<(String, Vec<Vec<u8>>)> = vec![("[]".into(), vec![])];
+        for (t, e) in &elems { lists.push((format!("[{}]", t), vec![e.clone()])); }
+        for (t1, e1) in &elems { for (t2, e2) in &elems { lists.push((format!("[{},{}]", t1, t2), vec![e1.clone(), e2.clone()])); } }
+        lists.push(("[el0,el1,el2]".into(), (0..3).map(elem).collect()));
+        lists.push(("[el0,el1,el2,el3]".into(), (0..4).map(elem).collect()));
+        lists.push(("[el0,el-cbor,el2]".into(), vec![elem(0), c0.cbor_sigreg.clone(), elem(2)]));
+        for (lt, l) in &lists {
+            for (i, (pt, p)) in paths.iter().enumerate() {
+                if l.len() >= 2 && i >= 6 { continue; }
+                k_case(&mut sink, &mut w, "aggregate", &format!("asm-{}/{}", lt, pt), &legacy_aggregate(l, p));
+            }
+        }
+        // declared number of elements differs from the actual one
+        for (k, d) in [(2usize, 1u64), (2, 3), (1, 0), (1, 2), (0, 1), (3, 2), (3, u64::MAX), (3, 1 << 61)] {
+            let mut a = legacy_aggregate(&(0..k).map(elem).collect::<Vec<_>>(), &hp);
+            a[1..9].copy_from_slice(&be(d));
+            k_case(&mut sink, &mut w, "aggregate", "asm-declared-count", &a);
+        }
+        // a three-element aggregate: every truncation, every type byte, every tracked 8-byte field set to near values
+        let l3: Vec<Vec<u8>> = (0..3).map(elem).collect();
+        let a3 = legacy_aggregate(&l3, &hp);
+        for n in 0..a3.len() { k_case(&mut sink, &mut w, "aggregate", "asm-truncated", &a3[..n]); }
+        for t in [1u8, 2, 3, 0x7f, 0x80, 0xff] { let mut x = a3.clone(); x[0] = t; k_case(&mut sink, &mut w, "aggregate", "asm-type-byte", &x); }
+        { let mut x = a3.clone(); x[1] = 1; k_case(&mut sink, &mut w, "aggregate", "asm-proof-first-byte-1", &x); }
+        { let env: C = ciborium::de::from_reader(&agg.to_bytes().unwrap()[1..]).unwrap(); k_case(&mut sink, &mut w, "aggregate", "asm-type0+cbor-proof", &with(&[0u8], &c_field(&env, "proof_bytes"))); }
+        let mut pos: Vec<usize> = vec![1];
+        let mut p = 9usize;
+        for e in &l3 { pos.extend([p, p + 8, p + 8 + 8 + 96, p + 8 + 8 + 104, p + 8 + 8 + 104 + 8, p + 8 + e.len() - 8]); p += 8 + e.len(); }
+        pos.push(p); pos.push(p + 8);
+        for &q in &pos {
+            let cur = u64::from_be_bytes(a3[q..q + 8].try_into().unwrap());
+            for v in [0u64, 1, 2, cur.wrapping_sub(8), cur.wrapping_sub(1), cur.wrapping_add(1), cur.wrapping_add(8), cur | (1 << 56), 1 << 56, 1 << 32, 1 << 61, 1 << 63, u64::MAX - 8, u64::MAX - 7, u64::MAX] {
+                k_case(&mut sink, &mut w, "aggregate", "asm-field", &set8(&a3, q, v));
+            }
+        }
     }
 
     // ---- (2) every public entry point: honest encodings, round trips, mutations ---------------
